@@ -139,6 +139,7 @@ def run(ctx):
                            extra_yaml="matlab:\n  outputDir: ../matlab\n")
     if not gp.generate():
         raise RuntimeError("yardl rejected the state-machine package: " + gp.gen_out[-1500:])
+    concrete_with_layer(ctx, gp, pkg, shapes)
     cdir = os.path.join(gp.dir, "cpp")
     open(os.path.join(cdir, "smdriver.cc"), "w").write(cpp_driver(pkg))
     rc, o, e = sh(["g++", "-std=c++17", "-O0", "-w", "-I", genrun.SHIMS, "-I", "generated", "smdriver.cc", "generated/protocols.cc",
@@ -422,6 +423,67 @@ def stream_surface_probe(ctx):
                 ctx.report("stream-surface:%s" % lang, "step `%s` with item type `%s` is %s in the model but the generated %s API treats it as %s"
                            % (st, item, "a stream" if is_stream else "a single value", lang, "a stream" if got else "a single value"),
                            {"step": st, "item_type": item, "declared_stream": is_stream, "generated": seen, "model": defs + "\n".join(lines) + "\n"})
+
+
+WITH_DRIVER = r"""
+import sys, io, json
+sys.path.insert(0, sys.argv[1])
+import smx
+cases = json.loads(sys.argv[2])          # [(protocol, [is_stream, ...])]
+out = []
+for pname, shape in cases:
+    W, R = getattr(smx, "Binary%sWriter" % pname), getattr(smx, "Binary%sReader" % pname)
+    names = ["s" + "abcdefghijklmnopqrstuvwxyz"[i // 26] + "abcdefghijklmnopqrstuvwxyz"[i % 26] for i in range(len(shape))]
+    b = io.BytesIO()
+    with W(b) as w:
+        for n, st in zip(names, shape):
+            getattr(w, "write_" + n)([1, 2, 3] if st else 7)
+    data = b.getvalue()
+    def run(k, drain_last):
+        # read the first k steps inside a with-block (streams drained, except the last one read when drain_last is False)
+        try:
+            with R(io.BytesIO(data)) as r:
+                for i in range(k):
+                    v = getattr(r, "read_" + names[i])()
+                    if shape[i] and (drain_last or i < k - 1):
+                        for _ in v:
+                            pass
+            return "ok"
+        except Exception as e:
+            return type(e).__name__
+    n = len(shape)
+    for k in range(n + 1):
+        out.append([pname, k, True, run(k, True)])
+        if k and shape[k - 1]:
+            out.append([pname, k, False, run(k, False)])
+print(json.dumps(out))
+"""
+
+
+def concrete_with_layer(ctx, gp, pkg, shapes):
+    """The concrete generated Python binary readers in the form the documentation shows: leaving the `with` block is the close.
+    A complete stream is written, then the first k steps are read inside `with Reader(...) as r:`; leaving the block must raise
+    ProtocolError unless every step was read and every stream drained."""
+    cases = [(pname, list(shp)) for (pname, _), shp in list(zip(pkg.protocols, shapes))[:14]]
+    drv = os.path.join(gp.dir, "with_driver.py")
+    open(drv, "w").write(WITH_DRIVER)
+    rc, o, e = sh([PY_VT, drv, os.path.join(gp.dir, "python"), json.dumps(cases)], timeout=300)
+    if rc != 0:
+        ctx.report("python-with-driver-failed", "the concrete generated Python writers/readers could not be driven: %s" % e.strip()[-200:],
+                   {"error": e[-1500:], "broken": "driver of the concrete Python readers"}, no_input=True)
+        return
+    for pname, k, drained, res in json.loads(o):
+        shape = dict(cases)[pname]
+        complete = k == len(shape) and drained
+        ctx.case(("pywith", pname, k, drained), sample={"machine": "python concrete reader in a with-block", "shape": ["stream" if s_ else "value" for s_ in shape],
+                                                        "steps_read": k, "last_stream_drained": drained, "outcome": res})
+        if complete and res != "ok":
+            ctx.report("python-with:complete-history-rejected", "leaving `with Binary%sReader(...)` after reading every step raised %s" % (pname, res),
+                       {"protocol": pname, "shape": shape, "steps_read": k, "outcome": res, "model": pkg.yaml()})
+        if not complete and res == "ok":
+            ctx.report("python-with:incomplete-history-accepted", "leaving `with Binary%sReader(...)` after reading %d of %d steps%s raised nothing: "
+                       "closing succeeded although not every step was completed" % (pname, k, len(shape), "" if drained else " (last stream not drained)"),
+                       {"protocol": pname, "shape": shape, "steps_read": k, "last_stream_drained": drained, "model": pkg.yaml()})
 
 
 def overflow_probe(ctx):
